@@ -68,7 +68,7 @@ def solve_side(instrs, opts, side):
     kw.pop("wrapper", None)
     exc = None
     res = None
-    with prog.quiet():
+    with prog.quiet(), oracles.heuristic_spy():
         try:
             if side == "cvxpy":
                 res = env.pep.solve(wrapper="cvxpy", **kw)
@@ -165,6 +165,7 @@ def check_case(case, ctx):
         return
     ctx.label("kind:" + case["kind"])
     sc = side_checks(ctx, envc, resc, opts, "cvxpy", k)
+    oracles.check_heuristic_objective(ctx, envc.pep.wrapper, "cvxpy:")
     envm, resm, excm = solve_side(case["instrs"], opts, "mosek")
     task = getattr(envm.pep.wrapper, "task", None)
     if type(envm.pep.wrapper).__name__ != "MosekWrapper":
@@ -182,6 +183,7 @@ def check_case(case, ctx):
         ctx.fail("mosek:none-on-bounded-model", "cvxpy back-end returns %r, MOSEK back-end %r" % (resc, resm))
         return
     sm = side_checks(ctx, envm, resm, opts, "mosek", k)
+    oracles.check_heuristic_objective(ctx, envm.pep.wrapper, "mosek:")
     scale = 1 + abs(resc)
     tol = 3 * k * scale
     if opts.get("drh") and opts.get("ret") == "primal":
